@@ -175,6 +175,13 @@ FIXED += [
      c08(wrap("  integer, intent(in), dimension3) :: vf_a"), "delete-paren@typedecl")),
 ]
 
+FIXED += [
+    ("C16", "surplus-block-table", "cce2b99", "a BLOCK inside a non-block labelled DO was matched twice (block DO abandoned, then non-block DO): a second, empty table of the same name was created under the same parent; the table of the final tree's BLOCK held no symbols and a stale duplicate held them",
+     {"mode": "raw", "std": "f2008", "key": "surplus-block-table",
+      "source": "program p\n  integer :: i\n  do 10 i = 1, 2\n    block\n      real :: x, sin\n      x = sin(1)\n    end block\n10 y = 2\nend program p\n",
+      "expected": [["p", ["i"], [], [[None, ["sin", "x"], [], []]]]]}),
+]
+
 OPEN = [
     ("C03", "defined-binary-op-with-dotted-right", "a defined binary operator with a dotted operator or logical literal to its right at the same parenthesis level is not parsed (Expr.match splits at the right-most .word. and gives up if that one is intrinsic)",
      {"mode": "expr", "text": "a .x. b .and. c", "expected": "(a.x.(b.and.c))", "context": "expr", "known": True}),
